@@ -34,6 +34,10 @@ type Monitor struct {
 	prev    map[string]map[uint64]bool
 	birth   map[uint64]birth
 	missing map[string]string // db/default-policy -> command after which it was first missing
+	wasDeleted map[uint64]bool // shard groups that were seen marked deleted
+	revived    map[uint64]bool // ... and later seen live again (DeleteShardGroup with CancelDelete)
+	// PrunedInLive counts (state, shard) observations of a MarkDelete shard in a live group
+	PrunedInLive int64
 }
 
 func (m *Monitor) firstMissing(key, cmd string) string {
@@ -45,7 +49,8 @@ func (m *Monitor) firstMissing(key, cmd string) string {
 }
 
 func NewMonitor() *Monitor {
-	return &Monitor{ever: map[string]map[uint64]bool{}, prev: map[string]map[uint64]bool{}, birth: map[uint64]birth{}, missing: map[string]string{}}
+	return &Monitor{ever: map[string]map[uint64]bool{}, prev: map[string]map[uint64]bool{}, birth: map[uint64]birth{}, missing: map[string]string{},
+		wasDeleted: map[uint64]bool{}, revived: map[uint64]bool{}}
 }
 
 // Fork copies the monitor (for prefix sharing in the exhaustive walk).
@@ -70,6 +75,12 @@ func (m *Monitor) Fork() *Monitor {
 	}
 	for k, b := range m.missing {
 		n.missing[k] = b
+	}
+	for k := range m.wasDeleted {
+		n.wasDeleted[k] = true
+	}
+	for k := range m.revived {
+		n.revived[k] = true
 	}
 	return n
 }
@@ -167,7 +178,11 @@ func (m *Monitor) Check(d *meta.Data, lastCmd string) []Issue {
 					m.birth[sg.ID] = b
 				}
 				if sg.Deleted() {
+					m.wasDeleted[sg.ID] = true
 					continue // a group marked deleted is on its way out: no obligations
+				}
+				if m.wasDeleted[sg.ID] {
+					m.revived[sg.ID] = true
 				}
 				if !sg.StartTime.Before(sg.EndTime) {
 					add("group-empty-span", "%s: group %d spans [%s, %s)", where, sg.ID, ts(sg.StartTime), ts(sg.EndTime))
@@ -175,11 +190,12 @@ func (m *Monitor) Check(d *meta.Data, lastCmd string) []Issue {
 				live[uint32(sg.EngineType)] = append(live[uint32(sg.EngineType)], sg)
 				// alignment to the duration in force when the group was created
 				if b.from != "ReShardingCommand" && b.dur > 0 {
+					// after a shard merge (ReplaceMergeShards) the end is the end of another group,
+					// created under whatever duration was in force then: only the start is judged
 					merged := sg.EndTime.UnixNano() != b.end
 					startOK := aligned(sg.StartTime, b.dur) || sg.StartTime.Equal(minTime)
-					endOK := aligned(sg.EndTime, b.dur) || sg.EndTime.Equal(maxEnd)
-					spanOK := sg.EndTime.Sub(sg.StartTime) == b.dur || sg.StartTime.Equal(minTime) || sg.EndTime.Equal(maxEnd) ||
-						(merged && sg.EndTime.Sub(sg.StartTime)%b.dur == 0)
+					endOK := merged || aligned(sg.EndTime, b.dur) || sg.EndTime.Equal(maxEnd)
+					spanOK := merged || sg.EndTime.Sub(sg.StartTime) == b.dur || sg.StartTime.Equal(minTime) || sg.EndTime.Equal(maxEnd)
 					if !startOK || !endOK || !spanOK {
 						add("group-misaligned", "%s: group %d [%s, %s) is not aligned to the shard group duration %s in force when it was created by %s (merged=%v)",
 							where, sg.ID, ts(sg.StartTime), ts(sg.EndTime), b.dur, b.from, merged)
@@ -189,6 +205,7 @@ func (m *Monitor) Check(d *meta.Data, lastCmd string) []Issue {
 				for j := range sg.Shards {
 					sh := &sg.Shards[j]
 					if sh.MarkDelete {
+						m.PrunedInLive++ // observation only: a shard marked deleted inside a group that is not
 						continue
 					}
 					if !indexIDs[sh.IndexID] {
@@ -228,6 +245,9 @@ func (m *Monitor) Check(d *meta.Data, lastCmd string) []Issue {
 							class := "same-duration"
 							if ba.dur != bb.dur {
 								class = "created-under-different-durations"
+							}
+							if m.revived[a.ID] || m.revived[b.ID] {
+								class = "revived-by-cancel-delete"
 							}
 							if ba.from == "ReplaceMergeShardsCommand" || bb.from == "ReplaceMergeShardsCommand" || a.EndTime.UnixNano() != ba.end || b.EndTime.UnixNano() != bb.end {
 								class += "+shard-merge"
